@@ -268,7 +268,12 @@ def gen_xml(apps):
                 at += f' must-not="{esc(d["must_not"])}"'
             if d["vendor"] is not None:
                 at += f' vendor-id="{d["vendor"]}"'
-            out.append(f'<avp {at}><data type="{esc(d["tyname"])}"/></avp>')
+            if d.get("items"):
+                # enumeration items (as the shipped dictionaries list them for Enumerated AVPs): documentation, not a type
+                its = "".join(f'<item code="{c}" name="{esc(n)}"/>' for c, n in d["items"])
+                out.append(f'<avp {at}><data type="{esc(d["tyname"])}">{its}</data></avp>')
+            else:
+                out.append(f'<avp {at}><data type="{esc(d["tyname"])}"/></avp>')
         out.append("</application>")
     out.append("</diameter>")
     return "\n".join(out)
